@@ -1260,14 +1260,26 @@ func runRScan(sq rscanSeq, class string) gen.Case {
 		if st.plain != "" {
 			apply(st.plain)
 		}
-		run := func(ops []string) func([]string) {
+		snap := func() map[string]diskFile {
+			m := map[string]diskFile{}
+			for k, v := range files {
+				m[k] = *v
+			}
+			return m
+		}
+		atStart := snap() // what scan stats
+		var atLoad map[string]diskFile
+		run := func(ops []string, isPre bool) func([]string) {
 			return func([]string) {
 				for _, o := range ops {
 					apply(o)
 				}
+				if isPre {
+					atLoad = snap() // what the loader reads
+				}
 			}
 		}
-		sc.SetLoadHooks(run(st.pre), run(st.post))
+		sc.SetLoadHooks(run(st.pre, true), run(st.post, false))
 		calls, err, pan := sc.Scan()
 		sc.SetLoadHooks(nil, nil)
 		if pan != "" || err != nil {
@@ -1285,6 +1297,21 @@ func runRScan(sq rscanSeq, class string) gen.Case {
 			if _, err, pan := sc.Scan(); pan != "" || err != nil {
 				return fail(i, "scan-panic", "scan failed: %v %s", err, pan)
 			}
+		}
+		// A-B-A during the load: a file that is, after the scan, exactly as scan stat'ed it, but was different at the moment
+		// the loader read it (a sidecar that appeared and vanished again within one scan). mtimes cannot show that.
+		aba := func(repoName string) bool {
+			var ri int
+			fmt.Sscanf(repoName, "repo%d", &ri)
+			for _, v := range []int{17, 16} {
+				name := shardBase(ri, v)
+				if f := files[name]; f != nil {
+					s0, ok0 := atStart[name]
+					l0, okl := atLoad[name]
+					return ok0 && s0 == *f && (!okl || l0 != s0)
+				}
+			}
+			return false
 		}
 		// expected: newest format version present per repository
 		wantKeys := []string{}
@@ -1317,7 +1344,11 @@ func runRScan(sq rscanSeq, class string) gen.Case {
 		}
 		for rn, v := range wantCV {
 			if gotCV[rn] != v || cnt[rn] != docsPerShard {
-				return fail(i, "stale-shard", "Search serves version %d of %s (%d files), disk has version %d", gotCV[rn], rn, cnt[rn], v)
+				key := "stale-shard"
+				if aba(rn) {
+					key = "aba-during-load"
+				}
+				return fail(i, key, "Search serves version %d of %s (%d files), disk has version %d", gotCV[rn], rn, cnt[rn], v)
 			}
 		}
 		if len(gotCV) != len(wantCV) {
@@ -1330,7 +1361,11 @@ func runRScan(sq rscanSeq, class string) gen.Case {
 		for _, e := range rl.Repos {
 			mv, _ := strconv.Atoi(e.Repository.RawConfig["mv"])
 			if mv != wantMV[e.Repository.Name] {
-				return fail(i, "stale-sidecar", "List serves sidecar version %d of %s, disk has %d (0 = no sidecar)", mv, e.Repository.Name, wantMV[e.Repository.Name])
+				key := "stale-sidecar"
+				if aba(e.Repository.Name) {
+					key = "aba-during-load"
+				}
+				return fail(i, key, "List serves sidecar version %d of %s, disk has %d (0 = no sidecar)", mv, e.Repository.Name, wantMV[e.Repository.Name])
 			}
 		}
 	}
